@@ -169,7 +169,13 @@ def main(argv=None):
             # (contract lines and invariants that state the property over the real state) and automatic obligations on real lines
             # (overflow, index, callee precondition, termination) stay violations.
             drift = 'auto' in f.labels and getattr(f, 'on_inserted', False) and f.function in (r.changed_items or [])
-            if prop in f.tags and drift:
+            unlowered = (getattr(r, 'incomplete_items', {}) or {}).get(f.function)
+            if prop in f.tags and unlowered:
+                # a declared lowering rule of this function did not apply to the changed text: the construct it used to replace by a
+                # specified one is handed to the verifier as it is, so a failed obligation says nothing about the code
+                undecided.append('%s: a lowering rule of the changed function %s no longer applies (%s); failed obligation not counted: %s' %
+                                 (u.name, f.function, '; '.join(unlowered)[:200], (f.labels or ['auto'])[0]))
+            elif prop in f.tags and drift:
                 undecided.append('%s: untagged proof step failed in the changed function %s (the transferred annotations may not fit the new code): %s @ woven line %s' %
                                  (u.name, f.function, f.primary and f.primary[1][:120], f.primary and f.primary[0]))
             elif prop in f.tags:
